@@ -1,3 +1,218 @@
-From Attrs Require Import C04.Model C04.Proofs.
-Theorem stub_t : True. Proof. exact stub. Qed.
-Print Assumptions stub_t.
+(** * C04 — Hash/eq contract, hash inputs, caching, and the hashability decision table.
+
+    Property theorems only; each is closed by [exact] of a lemma from
+    [C04/Proofs.v] and followed by [Print Assumptions].
+
+    Part A is about [Model.decide] (the hash block of [attrs()]'s [wrap]) over ALL
+    configurations [cfg]: api x auto_detect x auto_exc x slots x cmp x eq x hash x
+    unsafe_hash x frozen x own __hash__/__eq__/__ne__/__init__ x cache_hash x init x
+    base class facts.  Part B is about [Model.compute] / [Model.do_hash] /
+    [Model.step] for arbitrary field lists, values, key functions ([key]), element
+    hash ([ehash]) and tuple hash ([H]). *)
+From Coq Require Import List Bool ZArith.
+Import ListNotations.
+From Attrs Require Import C04.Model C04.Corr C04.Proofs.
+
+(** ** A. the decision table *)
+
+(** The code's decision equals the property's decision list (auto_exc exception class
+    => untouched; else unsafe_hash=True => generated (False: legacy row, untouched);
+    else own __hash__ auto-detected or eq off => untouched; else frozen, also by
+    inheritance => generated; else unhashable; cache_hash only with a generated hash
+    and a generated __init__, else TypeError) on every well-formed configuration. *)
+Theorem hash_decision_table : forall c, validb c = true -> decide c = spec_kind c.
+Proof. exact hash_decision_table_l. Qed.
+Print Assumptions hash_decision_table.
+
+Theorem malformed_rejected : forall c, validb c = false -> exists e, decide c = Err e.
+Proof. exact malformed_rejected_l. Qed.
+Print Assumptions malformed_rejected.
+
+(** "A class gets a generated hash iff unsafe_hash=True or (unsafe_hash unset, eq on,
+    frozen -- also by inheritance)" — with the precedence of the other two sentences. *)
+Theorem generated_iff : forall c, validb c = true -> c_cache c = false ->
+  (decide c = Generated <->
+   exc_class c = false /\
+   (eff_hash c = HT \/
+    (eff_hash c = HN /\ own_hash_detected c = false /\ eq_on c = true /\ frozen_incl c = true))).
+Proof. exact generated_iff_l. Qed.
+Print Assumptions generated_iff.
+
+(** The sentence verbatim, for classes that are no auto_exc exception and have no own __hash__. *)
+Theorem generated_iff_plain : forall c, validb c = true -> c_cache c = false ->
+  exc_class c = false -> own_hash_detected c = false ->
+  (decide c = Generated <->
+   eff_hash c = HT \/ (eff_hash c = HN /\ eq_on c = true /\ frozen_incl c = true)).
+Proof. exact generated_iff_plain_l. Qed.
+Print Assumptions generated_iff_plain.
+
+(** "it is made unhashable iff unsafe_hash is unset, eq is on and it is not frozen" *)
+Theorem unhashable_iff : forall c, validb c = true -> c_cache c = false ->
+  (decide c = Unhashable <->
+   eff_hash c = HN /\ eq_on c = true /\ frozen_incl c = false /\
+   exc_class c = false /\ own_hash_detected c = false).
+Proof. exact unhashable_iff_l. Qed.
+Print Assumptions unhashable_iff.
+
+(** "its inherited hash is left untouched iff eq is off, or its own __hash__ was
+    auto-detected, or it is an auto_exc exception class" — outside the legacy row. *)
+Theorem untouched_iff : forall c, validb c = true -> c_cache c = false -> legacy_row c = false ->
+  (decide c = Untouched <->
+   exc_class c = true \/
+   (eff_hash c <> HT /\ (eq_on c = false \/ own_hash_detected c = true))).
+Proof. exact untouched_iff_l. Qed.
+Print Assumptions untouched_iff.
+
+Theorem legacy_row_untouched : forall c, validb c = true -> c_cache c = false ->
+  legacy_row c = true -> decide c = Untouched.
+Proof. exact legacy_row_untouched_l. Qed.
+Print Assumptions legacy_row_untouched.
+
+Theorem cache_hash_accepted_iff : forall c, validb c = true -> c_cache c = true ->
+  (decide c = Generated <-> table c = Generated /\ init_on c = true) /\
+  (decide c <> Generated -> decide c = Err ETypeError).
+Proof. exact cache_hash_accepted_iff_l. Qed.
+Print Assumptions cache_hash_accepted_iff.
+
+(** "Untouched" = the class dict keeps the entry it had (the user's function, the
+    None Python adds for an own __eq__, or nothing); only in the legacy row does a
+    slotted build pick up Python's implicit None. *)
+Theorem untouched_keeps_entry : forall c, validb c = true -> decide c = Untouched ->
+  legacy_row c = false -> final_entry c = entry_before c.
+Proof. exact untouched_keeps_entry_l. Qed.
+Print Assumptions untouched_keeps_entry.
+
+Theorem implicit_none_only_legacy : forall c, validb c = true -> decide c = Untouched ->
+  entry_before c = EAbsent -> final_entry c = ENone -> legacy_row c = true /\ slots c = true.
+Proof. exact implicit_none_only_legacy_l. Qed.
+Print Assumptions implicit_none_only_legacy.
+
+(** "Hashing an instance of an attrs class that is hashable ... never raises" —
+    class level, GUARDED: false without the guard (K1 below). *)
+Theorem hash_total_class : forall c,
+  resolved_hashable c (final_entry c) = true ->
+  constructible c = true ->
+  inherited_cache_uninitialised c = false ->
+  probe_of c = PReturns.
+Proof. exact hash_total_A_l. Qed.
+Print Assumptions hash_total_class.
+
+Theorem hash_total_refuted_K1 :
+  exists c, validb c = true /\ decide c = Untouched /\ table c = Untouched /\
+            resolved_hashable c (final_entry c) = true /\ constructible c = true /\
+            probe_of c = PAttributeError.
+Proof. exact hash_total_refuted_K1_l. Qed.
+Print Assumptions hash_total_refuted_K1.
+
+(** The signature defaults of attr.s / define / frozen the model resolves arguments with
+    are the ones in the source ([Gen/C04_consts.v] is regenerated on every run). *)
+Theorem defaults_match_source :
+  Gen.C04_consts.src_attrs =
+  [Some (dflt_auto_detect ApiS); Some (dflt_auto_exc ApiS); Some (dflt_slots ApiS);
+   Some (dflt_frozen ApiS); Some false; None; None; None; None; None] /\
+  Gen.C04_consts.src_define =
+  [Some (dflt_auto_detect ApiD); Some (dflt_auto_exc ApiD); Some (dflt_slots ApiD);
+   Some (dflt_frozen ApiD); Some false; None; None; None; None] /\
+  Gen.C04_consts.src_frozen_partial_of_define = true /\
+  Gen.C04_consts.src_frozen_overrides =
+    [None; None; None; Some (Some (dflt_frozen ApiF)); None; None; None; None; None].
+Proof.
+  exact (conj consts_attrs (conj consts_define (conj (proj1 consts_frozen) (proj1 (proj2 consts_frozen))))).
+Qed.
+Print Assumptions defaults_match_source.
+
+(** ** B. hash value and cache protocol *)
+
+(** The hash depends only on the class (salt, field list) and the keyed values of the
+    hash-participating fields: instances that agree on those hash equal, whatever the
+    other fields hold. *)
+Theorem hash_frame : forall (val : Type) (key : keyid -> val -> val) (eh : Type) (ehash : val -> eh)
+  (hres : Type) (H : Z -> list eh -> hres) (c : cls) (xs ys : list val),
+  agree val key (flds c) xs ys ->
+  compute val key eh ehash hres H c xs = compute val key eh ehash hres H c ys.
+Proof. exact hash_frame_l. Qed.
+Print Assumptions hash_frame.
+
+(** Equal instances have equal hashes: generated __eq__ truthy (exact same class, all
+    eq fields' keyed values ==) implies equal generated hashes, when every hash field
+    is an eq field and the field values' own == / hash are consistent. *)
+Theorem hash_eq_contract : forall (val : Type) (key : keyid -> val -> val) (eh : Type)
+  (ehash : val -> eh) (hres : Type) (H : Z -> list eh -> hres) (py_eq : val -> val -> bool),
+  (forall a b : val, py_eq a b = true -> ehash a = ehash b) ->
+  forall x y : obj val hres,
+  (cid (o_cls val hres x) = cid (o_cls val hres y) -> o_cls val hres x = o_cls val hres y) ->
+  hash_within_eq (o_cls val hres x) = true ->
+  length (vals (o_inst val hres x)) = length (vals (o_inst val hres y)) ->
+  gen_eq val key hres py_eq x y = Some true ->
+  compute val key eh ehash hres H (o_cls val hres x) (vals (o_inst val hres x)) =
+  compute val key eh ehash hres H (o_cls val hres y) (vals (o_inst val hres y)).
+Proof. exact hash_eq_contract_l. Qed.
+Print Assumptions hash_eq_contract.
+
+(** Stable across calls. *)
+Theorem hash_stable : forall (val : Type) (key : keyid -> val -> val) (eh : Type) (ehash : val -> eh)
+  (hres : Type) (H : Z -> list eh -> hres) (c : cls) (i : inst val hres) (h : hres)
+  (i' : inst val hres) (comp : bool),
+  do_hash val key eh ehash hres H c i = Some (h, i', comp) ->
+  exists comp' : bool, do_hash val key eh ehash hres H c i' = Some (h, i', comp').
+Proof. exact hash_stable_l. Qed.
+Print Assumptions hash_stable.
+
+(** With cache_hash, over any interleaving of hash() calls and field assignments on a
+    freshly constructed instance, the hash is computed exactly once (if hash() is
+    called at all). *)
+Theorem cache_once : forall (val : Type) (key : keyid -> val -> val) (eh : Type) (ehash : val -> eh)
+  (hres : Type) (H : Z -> list eh -> hres) (c : cls) (ops : list (op val)) (vs : list val),
+  cache c = true -> forallb (hash_or_set val) ops = true ->
+  computations hres (run val key eh ehash hres H c (init val hres c vs) ops)
+  = if existsb (fun o => negb (is_set val o)) ops then 1 else 0.
+Proof. exact cache_once_init_l. Qed.
+Print Assumptions cache_once.
+
+(** n >= 1 consecutive calls: the first computes, all return the uncached value. *)
+Theorem cache_once_repeat : forall (val : Type) (key : keyid -> val -> val) (eh : Type)
+  (ehash : val -> eh) (hres : Type) (H : Z -> list eh -> hres) (c : cls) (n : nat) (vs : list val),
+  cache c = true ->
+  run val key eh ehash hres H c (init val hres c vs) (repeat OHash (S n)) =
+  MHashed (compute val key eh ehash hres H c vs) true
+  :: repeat (MHashed (compute val key eh ehash hres H c vs) false) n.
+Proof. exact cache_once_repeat_l. Qed.
+Print Assumptions cache_once_repeat.
+
+(** Across every history of hash / copy / deepcopy / pickle / evolve / fresh-instance
+    operations WITHOUT field assignment, every hash() returns the uncached hash of the
+    current field values (cached or not).  (After an assignment the cached value is
+    stale by design: [Proofs.cache_stale_after_set].) *)
+Theorem cached_equals_uncached : forall (val : Type) (key : keyid -> val -> val) (eh : Type)
+  (ehash : val -> eh) (hres : Type) (H : Z -> list eh -> hres) (c : cls) (ops : list (op val))
+  (vs : list val),
+  forallb (fun o => negb (is_set val o)) ops = true ->
+  hashes_uncached val key eh ehash hres H c (init val hres c vs) ops.
+Proof. exact cached_equals_uncached_init_l. Qed.
+Print Assumptions cached_equals_uncached.
+
+(** Instance level "never raises": on an instance built by the class's OWN generated
+    __init__ (and everything derived from it by the history operations) the generated
+    __hash__ always returns. *)
+Theorem hash_total : forall (val : Type) (key : keyid -> val -> val) (eh : Type) (ehash : val -> eh)
+  (hres : Type) (H : Z -> list eh -> hres) (c : cls) (ops : list (op val)) (vs : list val),
+  hash_returns val key eh ehash hres H c (init val hres c vs) ops.
+Proof. exact hash_total_init_l. Qed.
+Print Assumptions hash_total.
+
+(** K1: the guard is needed — the caching __hash__ of a base applied to an instance
+    built by a non-caching subclass's __init__ raises. *)
+Theorem hash_total_inherited_refuted : forall (val : Type) (key : keyid -> val -> val) (eh : Type)
+  (ehash : val -> eh) (hres : Type) (H : Z -> list eh -> hres) (base sub : cls) (vs : list val),
+  cache base = true -> cache sub = false ->
+  do_hash val key eh ehash hres H base (init val hres sub vs) = None.
+Proof. exact inherited_caching_hash_refuted_l. Qed.
+Print Assumptions hash_total_inherited_refuted.
+
+(** Equality of the free hashes the correspondence check compares means equality
+    under every hash oracle. *)
+Theorem free_complete : forall (eh hres : Type) (ehash : nat -> eh) (H : Z -> list eh -> hres) c xs ys,
+  fcompute c xs = fcompute c ys ->
+  compute nat fkey eh ehash hres H c xs = compute nat fkey eh ehash hres H c ys.
+Proof. exact free_complete_l. Qed.
+Print Assumptions free_complete.
